@@ -1463,6 +1463,12 @@ class Interp:
                     vt = loops.vectorise(elt.term, lvt, n, self.term_shape, self.api.dim_term)
                 elif esh is not None:
                     vt = loops.row_selection(elt.term, lvt, n, self.term_shape)
+                if vt is None and esh is not None and len(esh) == 2 and not masks:
+                    lifted = loops.lift_broadcast(elt.term, lvt, n, self.term_shape, self.api.dim_term)
+                    if lifted is not None:
+                        lt_, lsh = lifted
+                        self.vtab[lt_] = V("arr", lt_, shape=lsh, orig=frozenset([FRESH]), labels=it.labels | elt.labels, loc=fresh_id())
+                        return V("list", lt_, items=None, labels=it.labels | elt.labels, orig=frozenset([FRESH]), extra=("comp", elt, lsh, "arr"), loc=fresh_id())
                 if vt is not None:
                     if masks:
                         term = T("getitem", vt, loops.conj(masks))
